@@ -1,5 +1,6 @@
 import XrsVerif.Proofs.AStarEuclid
 import XrsVerif.Proofs.AStarCoord
+import XrsVerif.Proofs.AStarQ2
 import Mathlib.Analysis.Real.Sqrt
 /-
   C14 -- A* returns a valid, shortest path between the cells the caller named.
@@ -249,6 +250,26 @@ theorem run_cases {C : Type} (ops : Ops C) (h w : Nat) (cross : Cell → Bool) (
       | some g =>
         exact Or.inl ⟨s, g, (by simp), (by simp), (hS.2.1 s hs).2.1 hsp,
           (hG.2.1 g hg).2.1 hgp, rfl⟩
+
+/-- **the exact instance executed by the driver** (`opsQ2`: costs `a + b√2` as pairs of naturals
+    compared in integers, heuristic 0) is itself covered: it is a homomorphic image of exact field
+    arithmetic (`opsQ2_hom`, `search_map`), so for every square root of two `s` of an ordered field
+    the pair `(a, b)` it reports at the goal satisfies `a + b·s ≤` every route's length (steps
+    cost `1` or `s`), a path is reported whenever a route exists, the sentinel is never reached.
+    The correspondence run compares exactly this value with the real function's goal value. -/
+theorem exact_instance_optimal (s : K) (hs : s * s = 2) (hs0 : 0 < s) (h w : Nat) (cross : Cell → Bool)
+    (conn : Nat) (start goal : Cell) (hstart : inside h w start = true) :
+    match search { ops := opsQ2, h := h, w := w, cross := cross, nbrs := nbrsOf conn, start := start, goal := goal } with
+    | .path chain g =>
+        ValidPath { ops := opsQ2, h := h, w := w, cross := cross, nbrs := nbrsOf conn, start := start, goal := goal } chain g ∧
+        ∀ l, Route { ops := fieldOps (wtQ s) (fun _ _ => 0), h := h, w := w, cross := cross, nbrs := nbrsOf conn,
+                     start := start, goal := goal } goal l → q2val s (g goal) ≤ l
+    | .noPath => ∀ l, ¬ Route { ops := opsQ2, h := h, w := w, cross := cross, nbrs := nbrsOf conn, start := start, goal := goal } goal l
+    | .anomaly _ => False :=
+  search_q2_exact s hs hs0 _ rfl hstart
+
+example : Real.sqrt 2 * Real.sqrt 2 = 2 ∧ 0 < Real.sqrt 2 :=
+  ⟨Real.mul_self_sqrt (by norm_num), Real.sqrt_pos.mpr (by norm_num)⟩
 
 /-- non-vacuity: over the reals the Euclidean distance exists, so `astar_exact` applies to
     `K = ℝ`, `d = √(Δy² + Δx²)`, whose diagonal step is `√2` -/
